@@ -87,6 +87,32 @@ func newGate() *gateQueue {
 	return &gateQueue{entered: make(chan string, 8), release: make(chan struct{}), gate: true}
 }
 
+// a wrapped structure with an error path: inserting the marker value panics (as a wrapped implementation may do on bad input); the
+// wrapper must stay usable afterwards - the call that panicked had no effect, later calls are served
+type injectedPanic struct{}
+type faultQueue struct{ *fpgo.LinkedListQueue[int] }
+
+const faultValue = -666
+
+func (f faultQueue) Offer(v int) error {
+	if v == faultValue {
+		panic(injectedPanic{})
+	}
+	return f.LinkedListQueue.Offer(v)
+}
+func (f faultQueue) Put(v int) error {
+	if v == faultValue {
+		panic(injectedPanic{})
+	}
+	return f.LinkedListQueue.Put(v)
+}
+func (f faultQueue) Push(v int) error {
+	if v == faultValue {
+		panic(injectedPanic{})
+	}
+	return f.LinkedListQueue.Push(v)
+}
+
 type c08Wrapped struct {
 	cq *fpgo.ConcurrentQueue[int]
 	cs *fpgo.ConcurrentStack[int]
@@ -522,32 +548,60 @@ func c08Wide(w *ndWriter, seed int64, stack bool, shape string, P, Cn, per int) 
 // fresh objects: the FIRST calls on a just constructed wrapper come from K goroutines released together (anything the wrapper
 // sets up lazily on first use is raced); one insertion each, then a single goroutine drains.  One line per trial, judged like
 // the wide rounds (Trace_ConcWide: no panic, every value exactly once, nothing invented).
-func c08Fresh(w *ndWriter, stack bool, K int, mixed bool, trial int) {
-	out := c08WideOut{Kind: "queue", Shape: "fresh", Offered: []int{}, Got: map[string][]int{}, Drain: []int{}}
+// variant 0: plain; 1 "fault": the wrapped structure panics on one (sequential) call made first - every later call must still be
+// served; 2 "nested": the wrapped implementation is itself a ConcurrentQueue / ConcurrentStack and both handles are in use
+func c08Fresh(w *ndWriter, stack bool, K int, mixed bool, trial int, variant int) {
+	out := c08WideOut{Kind: "queue", Shape: []string{"fresh", "fresh-fault", "fresh-nested"}[variant], Offered: []int{}, Got: map[string][]int{}, Drain: []int{}}
 	if stack {
 		out.Kind = "stack"
 	}
 	ll := fpgo.NewLinkedListQueue[int]()
-	var wr c08Wrapped
-	if stack {
+	var wr, wrInner c08Wrapped
+	switch {
+	case variant == 1 && stack:
+		wr = c08Wrapped{nil, fpgo.NewConcurrentStack[int](faultQueue{ll})}
+	case variant == 1:
+		wr = c08Wrapped{fpgo.NewConcurrentQueue[int](faultQueue{ll}), nil}
+	case variant == 2 && stack:
+		inner := fpgo.NewConcurrentStack[int](ll)
+		wrInner = c08Wrapped{nil, inner}
+		wr = c08Wrapped{nil, fpgo.NewConcurrentStack[int](inner)}
+	case variant == 2:
+		inner := fpgo.NewConcurrentQueue[int](ll)
+		wrInner = c08Wrapped{inner, nil}
+		wr = c08Wrapped{fpgo.NewConcurrentQueue[int](inner), nil}
+	case stack:
 		wr = c08Wrapped{nil, fpgo.NewConcurrentStack[int](ll)}
-	} else {
+	default:
 		wr = c08Wrapped{fpgo.NewConcurrentQueue[int](ll), nil}
+	}
+	if variant != 2 {
+		wrInner = wr
 	}
 	var panics, ready, start int32
 	var mu sync.Mutex
-	safe := func(m string, v int) (got int, r string) {
+	safeOn := func(h c08Wrapped, m string, v int) (got int, r string) {
 		r = "panic"
 		func() {
 			defer func() {
-				if recover() != nil {
-					atomic.AddInt32(&panics, 1)
+				if p := recover(); p != nil {
+					if _, injected := p.(injectedPanic); !injected {
+						atomic.AddInt32(&panics, 1)
+					}
 				}
 			}()
-			g, err := wr.call(m, v)
+			g, err := h.call(m, v)
 			got, r = g, resOf(err)
 		}()
 		return
+	}
+	safe := func(m string, v int) (int, string) { return safeOn(wr, m, v) }
+	if variant == 1 { // the faulting call, alone and recovered by its caller
+		m := "Offer"
+		if stack {
+			m = "Push"
+		}
+		safe(m, faultValue)
 	}
 	var wg sync.WaitGroup
 	for k := 0; k < K; k++ {
@@ -578,7 +632,11 @@ func c08Fresh(w *ndWriter, stack bool, K int, mixed bool, trial int) {
 			if stack {
 				m = "Push"
 			}
-			safe(m, v)
+			if k%3 == 2 {
+				safeOn(wrInner, m, v) // (nested: through the inner handle)
+			} else {
+				safe(m, v)
+			}
 		}(k, v, remover)
 	}
 	for atomic.LoadInt32(&ready) < int32(K) {
@@ -638,7 +696,7 @@ func c08Main(args []string) error {
 		}
 		fresh := flagInt(args, "fresh", 1200)
 		for t := 0; t < fresh; t++ {
-			c08Fresh(w, t%2 == 0, 2+t%7, t%5 == 4, t)
+			c08Fresh(w, t%2 == 0, 2+t%7, t%5 == 4, t, []int{0, 0, 0, 1, 2, 2}[t%6])
 		}
 		fmt.Printf("{\"runs\":%d}\n", 2*rounds+fresh)
 		return nil
